@@ -2,11 +2,15 @@
 // The handler closure captures `&mut state` (rejected by Verus). The call is replaced by this trampoline: everything
 // it can reach is arbitrary afterwards, except what the units `framebuf` and `process` prove for every input:
 // Inner's invariant is kept, the table limit does not change, heartbeat timers are only stamped, and a connection state
-// other than Steady / ClientClosed implies the output buffer is sealed. The composition itself is assumed.
+// other than Steady / ClientClosed implies the output buffer is sealed, the throttling state is untouched, and the connection never
+// returns to Steady while channel 0's slot stays the same one ([C18.dispatcher_keeps_throttling_state], [C20,C08.steady_slot_kept]
+// in unit process). The composition itself is assumed.
 #[verifier::external_body]
 pub fn read_from_stream_havoc<S: IoStream>(inner: &mut Inner, stream: &mut S, frame_buffer: &mut FrameBuffer, state: &mut ConnectionState) -> (r: Result<()>)
     requires old(inner).wf(), state_inv(old(state), old(inner)),
     ensures final(inner).wf(), state_inv(final(state), final(inner)),
         final(inner).chan_slots.channel_max == old(inner).chan_slots.channel_max,
+        final(inner).channels_are_registered == old(inner).channels_are_registered, final(inner).mio_channel_bound == old(inner).mio_channel_bound,
+        *final(state) is Steady ==> (*old(state) is Steady && final(state)->Steady_0 == (Channel0Slot { blocked_tx: final(state)->Steady_0.blocked_tx, ..old(state)->Steady_0 })),
         final(stream).written() == old(stream).written(),
 { unimplemented!() }
